@@ -302,7 +302,7 @@ func propC04(r *Run, w *World) {
 			okIdx := false
 			for _, ic := range callsNamedIn(x.parseLogLine, "strings.Index") {
 				a := ic.Common().Args
-				if s, isC := constString(a[1]); isC && s == mt && a[0] == ssa.Value(x.parseLogLine.Params[0]) {
+				if s, isC := constString(a[1]); isC && s == mt && isParamValue(a[0], x.parseLogLine.Params[0]) {
 					okIdx = true
 				}
 			}
@@ -437,7 +437,7 @@ func propC04(r *Run, w *World) {
 		iom := callsNamedIn(x.parse, "auparse.indexOfMessage")
 		ok = ok && len(iom) == 1 && Term(iom[0].Common().Args[0]) == "TrimSpace#1[parseAuditHeader#1#2:]"
 		ts := callsNamedIn(x.parse, "strings.TrimSpace")
-		ok = ok && len(ts) == 1 && ts[0].Common().Args[0] == ssa.Value(x.parse.Params[1])
+		ok = ok && len(ts) == 1 && isParamValue(ts[0].Common().Args[0], x.parse.Params[1])
 		r.Check(ok, "Parse fills the message from the header it parsed", x.parse.Pos(), "", fmt.Sprintf("Parse's literal is %v", got))
 		undo()
 	}
@@ -500,7 +500,7 @@ func c04UnknownRoundTrip(r *Run, w *World, ruleID string) {
 										inner = mi.X
 									}
 									bt, _ := inner.Type().Underlying().(*types.Basic)
-									okc = bt != nil && bt.Kind() == types.Uint16 && stripConv(inner) == ssa.Value(str.Params[0])
+									okc = bt != nil && bt.Kind() == types.Uint16 && isParamValue(stripConv(inner), str.Params[0])
 								}
 							}
 						}
@@ -1266,7 +1266,7 @@ func propC12(r *Run, w *World) {
 			}
 		}
 		decs := callsNamedIn(fn, "auparse.decodeUppercaseHexString")
-		okDec := len(decs) == 1 && decs[0].Common().Args[0] == ssa.Value(fn.Params[0])
+		okDec := len(decs) == 1 && isParamValue(decs[0].Common().Args[0], fn.Params[0])
 		r.Check(okUse && okDec, name+" decodes the whole token", fn.Pos(), "decodeUppercaseHexString(h); NUL handling on the decoded bytes",
 			name+" does not hand its whole argument to the decoder and nothing else: "+detail+" (a \"00\" in the hex text need not be a NUL byte: \"200A\" is \" \\n\")")
 	}
@@ -1377,7 +1377,7 @@ func propC12(r *Run, w *World) {
 						continue
 					}
 					for _, in := range b.Instrs {
-						if sl, ok := in.(*ssa.Slice); ok && sl.X == ssa.Value(ps.Params[0]) {
+						if sl, ok := in.(*ssa.Slice); ok && isParamValue(sl.X, ps.Params[0]) {
 							got[Term(sl)] = true
 							if fam.MinLen > 0 && !HoldsAt(b, fmt.Sprintf("len(p0) >= %d", 2*fam.MinLen)) {
 								minOK = false
@@ -1414,7 +1414,7 @@ func propC12(r *Run, w *World) {
 		if hi, err := w.Func("auparse", "hexToIP"); err == nil {
 			var sl []string
 			instrsOf(hi, func(in ssa.Instruction) {
-				if s, ok := in.(*ssa.Slice); ok && s.X == ssa.Value(hi.Params[0]) {
+				if s, ok := in.(*ssa.Slice); ok && isParamValue(s.X, hi.Params[0]) {
 					sl = append(sl, Term(s))
 					r.Check(HoldsAt(s.Block(), "len(p0) == 8"), "hexToIP slice "+Term(s), s.Pos(), "", "IPv4 octet slice without len(h) == 8")
 				}
@@ -1510,7 +1510,7 @@ func armSkips(b *ssa.BasicBlock, fn *ssa.Function) bool {
 func guardBeforeAll(fn *ssa.Function, lit string) bool {
 	ok := true
 	instrsOf(fn, func(in ssa.Instruction) {
-		if sl, isSl := in.(*ssa.Slice); isSl && sl.X == ssa.Value(fn.Params[0]) {
+		if sl, isSl := in.(*ssa.Slice); isSl && isParamValue(sl.X, fn.Params[0]) {
 			if !HoldsAt(sl.Block(), lit) {
 				ok = false
 			}
